@@ -85,23 +85,32 @@ class C15(Check):
         code = CODES[idx % 48]
         n = [rng.randint(1, 9) for _ in range(3)]     # (columns, rows, slices)
         chunk = [rng.choice([1, 2, 3, 4, 8]) for _ in range(3)]   # RAS order
-        kind = rng.choice(["grey", "grey", "rgb", "multi"])
+        kind = rng.choice(["grey", "grey", "rgb", "multi", "mixed"])
         dest = rng.choice(["flat", "deep", "gz", "sharded"])
         if dest == "sharded":
             c = rng.choice([1, 2, 4, 8])
             chunk = [c, c, c]
-        pix = "uint8" if kind == "rgb" else rng.choice(["uint8", "uint16"])
+        pix = "uint8" if kind in ("rgb", "mixed") else rng.choice(
+            ["uint8", "uint16"])
         out = pix if rng.random() < 0.7 else rng.choice(
             ["uint16", "uint32", "float32"]
             if pix == "uint8" else ["uint32", "float32"])
         scn = {"code": code, "n": n, "chunk": chunk, "kind": kind,
-               "ndirs": rng.choice([2, 3]) if kind == "multi" else 1,
+               "ndirs": (rng.choice([2, 3]) if kind in ("multi", "mixed")
+                         else 1),
+               # which directories of a "mixed" stack hold RGB slices
+               "rgb_dirs": ([rng.random() < 0.5 for _ in range(3)]
+                            if kind == "mixed" else []),
+               # directory names: the order GIVEN on the command line is not
+               # their lexicographic order
+               "dir_names": rng.sample(["a", "b", "c", "Z", "m"], 3),
                "pix": pix, "out": out, "dest": dest,
                "names": rng.choice(NAME_STYLES),
                "perm_seed": rng.randrange(1 << 30),
                "lower_code": rng.random() < 0.2,
                # slices of one stack stored with different pixel types
-               "mixed_pix": kind != "rgb" and rng.random() < 0.15,
+               "mixed_pix": kind in ("grey", "multi")
+               and rng.random() < 0.15,
                # library use: the same file-name lists converted twice (into
                # two datasets) by the public slices_to_raw_chunks()
                "api_twice": rng.random() < 0.15,
@@ -118,7 +127,8 @@ class C15(Check):
         s, r, c = np.meshgrid(np.arange(ns), np.arange(nr), np.arange(nc),
                               indexing="ij")
         base = (c * 7 + r * 31 + s * 101 + d * 53 + scn["salt"])
-        if scn["kind"] == "rgb":
+        if scn["kind"] == "rgb" or (scn["kind"] == "mixed"
+                                    and scn["rgb_dirs"][d]):
             v = np.stack([(base + 11 * k) % 251 for k in range(3)], axis=-1)
             return v.astype(np.uint8)
         if scn["pix"] == "uint16" and not scn.get("mixed_pix"):
@@ -135,7 +145,9 @@ class C15(Check):
         finally:
             from sim import simfs
             for d in range(scn["ndirs"]):
-                simfs.set_real_listdir_perm(os.path.join(tmp, f"d{d}"), None)
+                simfs.set_real_listdir_perm(os.path.join(
+                    tmp, "dir_" + scn.get("dir_names", ["0", "1", "2"])[d]),
+                    None)
             shutil.rmtree(tmp, ignore_errors=True)
 
     def _execute(self, scn, tmp):
@@ -155,7 +167,8 @@ class C15(Check):
         stacks = []
         dirs = []
         for d in range(scn["ndirs"]):
-            dpath = os.path.join(tmp, f"d{d}")
+            dpath = os.path.join(tmp, "dir_" + scn.get(
+                "dir_names", ["0", "1", "2"])[d])
             os.mkdir(dpath)
             dirs.append(dpath)
             st = self._pixel_stack(scn, d)
@@ -189,7 +202,7 @@ class C15(Check):
             size[AXIS[code[i]]] = in_sizes[i]
         chans = []
         for st in stacks:
-            if scn["kind"] == "rgb":
+            if st.ndim == 4:
                 chans += [st[..., k] for k in range(3)]
             else:
                 chans.append(st)
@@ -304,8 +317,11 @@ class C15(Check):
             res.probe("single_group")
         if scn["kind"] == "rgb":
             res.probe("rgb")
-        if scn["kind"] == "multi":
+        if scn["kind"] in ("multi", "mixed"):
             res.probe("multi_dir")
+        if scn["kind"] == "mixed" and len(set(scn["rgb_dirs"][
+                :scn["ndirs"]])) > 1:
+            res.probe("dirs_with_different_channel_counts")
         if scn["pix"] == "uint16":
             res.probe("uint16")
         if scn["dest"] == "sharded":
